@@ -220,7 +220,7 @@ def rule_check(ctx):
     tests = [s for s in tl[0].body if isinstance(s, ast.If)]
     ctx.require(len(tests) == 1, "_check_constraints: predicate test not found")
     t = str(Fe.at(tests[0], tests[0].test))
-    want = "not(%s.constraint_function(*[continuous_samples[f.name][%s] for f in %s.factors]))" % (c, i, c)
+    want = "not(%s.constraint_function(*[continuous_samples[_b0.name][%s] for _b0 in %s.factors]))" % (c, i, c)
     ctx.check(t == want and len(tests[0].body) == 1 and in_loop and tests[0].body[0] is in_loop[0] and not tests[0].orelse, R, f, "predicate %s" % t,
               "a falsy predicate on the values of c.factors at trial i rejects", "the predicate test is `%s` (expected `%s` -> return False)" % (t, want), tests[0])
     ctx.check(len(in_loop) == 1, R, f, "one rejecting return", "exactly one rejecting return", "%d returns inside the iteration" % len(in_loop))
